@@ -176,8 +176,16 @@ func (p *Preemptor) initWorkingState() {
 
 				// Cancel reservation based on its priority and waiting time in reservation queue
 				if res.alloc.GetPriority() < p.ask.priority && askAge > reservationWaitTimeout {
-					num := res.app.UnReserve(res.node, res.alloc)
-					res.app.GetQueue().UnReserve(res.app.ApplicationID, num)
+					var num int
+					if res.app == p.application {
+						// the reservation belongs to another ask of the application that is being scheduled: its
+						// lock is held by the scheduling cycle already, taking it again would block for ever
+						num = p.application.unReserveInternal(res)
+						p.application.queue.UnReserve(res.app.ApplicationID, num)
+					} else {
+						num = res.app.UnReserve(res.node, res.alloc)
+						res.app.GetQueue().UnReserve(res.app.ApplicationID, num)
+					}
 					log.Log(log.SchedApplication).Info("Cancelled reservation to consider node for preemption",
 						zap.String("triggered by appID", p.application.ApplicationID),
 						zap.String("triggered by allocationKey", p.ask.allocationKey),
